@@ -59,6 +59,25 @@ def run(ctx):
             os.remove(tr)
         except OSError:
             pass
+    # the aligned / intrinsic paths (inv3x3<aligned>, the SIMD compute_inverse<4,4>, aligned operator/): the same harness with the default
+    # qualifier switched to aligned_highp; the trace specification does not depend on the qualifier
+    variants = [("aligned-sse2", ["-DGLM_FORCE_INTRINSICS", "-DGLM_FORCE_DEFAULT_ALIGNED_GENTYPES", "-msse2"])]
+    if not ctx.quick:
+        variants.append(("aligned-avx2", ["-DGLM_FORCE_INTRINSICS", "-DGLM_FORCE_DEFAULT_ALIGNED_GENTYPES", "-mavx2", "-mfma"]))
+    for vl, flags in variants:
+        ba = ctx.build("c10_" + vl.replace("-", "_"), "c10.cpp", flags=flags, opt="-O1")
+        if not ba:
+            continue
+        for label, sec, extra in ([("mc", "mc", [parts[0]]), ("gen", "gen", [])] if ctx.quick else jobs):
+            tr = ctx.scratch.path("c10-%s-%s.ndjson" % (vl, label))
+            ok, out = ctx.run_harness(ba, [tr, ctx.tier, sec] + extra, tr)
+            if not ok:
+                break
+            ctx.validate(TRACE_MODULE, tr, label="%s %s" % (vl, label), min_lines=200)
+            try:
+                os.remove(tr)
+            except OSError:
+                pass
     ctx.rule("every matrix visited by the TLC run of MC_C10 (unimodular, n = 2..4) through determinant, determinant(transpose), inverse, "
              "inverseTranspose, adjugate, m/m, m/=m, m/v, v/m, m*m + determinant, affineInverse of the affine embedding and of the matrix itself, "
              "float and double (mediump / lowp on every 4th): bit-exact against the integer layer; generated small-integer, triangular, "
@@ -66,7 +85,8 @@ def run(ctx):
              "kappa-proportional tolerance against exact rationals with the spec's exact condition number, residual inv*M - I formed by the "
              "spec from the logged inverse; scalar/matrix quotients correctly rounded per component; diagonal builders and flips bit-exact in "
              "all shapes; isNull/isIdentity/isNormalized/isOrthogonal three-valued around the threshold; qr/rq_decompose by postconditions "
-             "(orthonormal, triangular, product) in square and non-square shapes", exhaustive=False)
+             "(orthonormal, triangular, product) in square and non-square shapes; the unimodular and generated suites again in a build whose default "
+             "qualifier is aligned_highp with intrinsics (SSE2; AVX2+FMA thorough)", exhaustive=False)
     ctx.assumptions += ["matrices that are singular, have an exact infinity-norm condition number above 1e4 (float) / 1e8 (double), non-finite "
                         "entries or entries outside [2^-40, 2^40] constrain nothing",
                         "tolerance constants: 16 * kappa * eps * max|exact| (inverse family, quotients, determinant relative to |det|), "
